@@ -46,4 +46,44 @@ def acceptTrace (k : Kind) (g : SGrammar) (w : List String) : Option (List Pr ×
     | _ => none
   | _ => none
 
+/-- `S → a S b | ε`: an SLR(1) grammar with an ε-production -/
+def gAnBn : SGrammar :=
+  { terms := ["a", "b"], nonterms := ["S"], start := "S",
+    prods := [⟨"S", [.term "a", .nonterm "S", .term "b"]⟩, ⟨"S", []⟩] }
+
+/-- `E → E + E | E * E | E ^ E | id` -/
+def gExpr : SGrammar :=
+  { terms := ["id", "+", "*", "^"], nonterms := ["E"], start := "E",
+    prods := [⟨"E", [.nonterm "E", .term "+", .nonterm "E"]⟩, ⟨"E", [.nonterm "E", .term "*", .nonterm "E"]⟩,
+              ⟨"E", [.nonterm "E", .term "^", .nonterm "E"]⟩, ⟨"E", [.term "id"]⟩] }
+
+/-- `^` right-associative and tightest, then `*` left, then `+` left -/
+def exprLevels : List Level :=
+  [⟨.right, [.term "^"]⟩, ⟨.left, [.term "*"]⟩, ⟨.left, [.term "+"]⟩]
+
+/-- the AST the resolved parser of construction `k` returns, rendered as an `Expr` -/
+def treeToExpr : Tree → Option Expr
+  | .node _ [.leaf "id"] => some .id
+  | .node _ [l, .leaf op, r] =>
+    match treeToExpr l, treeToExpr r with
+    | some a, some b => some (.bin a op b)
+    | _, _ => none
+  | _ => none
+
+def resolvedAst (k : Kind) (w : List String) : Option Expr :=
+  match build k gExpr 60 with
+  | .ok b =>
+    match resolveAll exprLevels (fun _ _ acts => acts) b.table with
+    | .ok (T, .table) =>
+      match parse T.toTbl 400 w with
+      | .ok (.accept _ root) => treeToExpr root
+      | _ => none
+    | _ => none
+  | _ => none
+
+def groupsAsDeclared (k : Kind) (w : List String) : Bool :=
+  match climb exprLevels w with
+  | some e => resolvedAst k w == some e
+  | none => false
+
 end AlgoVerif.C11.Demo
